@@ -12,6 +12,13 @@ _hsf.update(name="hs_dispatch_faults", malloc_may_fail=True)
 _hsf["assumptions"] = _hsf["assumptions"] + ["hs_dispatch_faults: every allocation of the dispatcher may fail (symbolic fault schedule on the tape)"]
 HARNESSES.append(_hsf)
 HARNESSES.append(
+    dict(name="ks13_faults", dir="C10", src="ks13.c", checks=COMMON["MEMCHECKS"], malloc_may_fail=True, leak_check=True,
+         units=["matrixssl/hsNegotiateVersion.c"],
+         functions=["tls13DeriveHandshakeTrafficSecrets"], sources=["matrixssl/tls13KeySchedule.c"],
+         assumptions=["ks13_faults: see ks13 (C10); every allocation may fail; key exchange mode psk_ke or (EC)DHE"],
+         undefined_ok="*", unwind=70,
+         cases=[dict(name="op0", defs={"VF_OP": 0})]))
+HARNESSES.append(
     dict(name="readbuf", src="readbuf.c", checks=COMMON["MEMCHECKS"], malloc_may_fail=True, leak_check=True,
          units=["matrixssl/hsNegotiateVersion.c"],
          functions=["matrixSslGetReadbufOfSize", "matrixSslGetReadbuf"], sources=["matrixssl/matrixsslApi.c"],
